@@ -36,6 +36,16 @@ where
     completed: AtomicBool,
 }
 
+/// Marks the iteration as completed unless it is disarmed with `std::mem::forget`;
+/// used to release the waiting threads when the wrapped iterator panics.
+pub(crate) struct CompleteOnUnwind<'a>(&'a AtomicBool);
+
+impl Drop for CompleteOnUnwind<'_> {
+    fn drop(&mut self) {
+        self.0.store(true, atomic::Ordering::SeqCst);
+    }
+}
+
 impl<T: Send + Sync, Iter> ConIterOfIter<T, Iter>
 where
     Iter: Iterator<Item = T>,
@@ -61,6 +71,11 @@ where
     #[allow(clippy::mut_from_ref)]
     pub(crate) unsafe fn mut_iter(&self) -> &mut Iter {
         unsafe { &mut *self.iter.get() }
+    }
+
+    #[inline(always)]
+    pub(crate) fn complete_on_unwind(&self) -> CompleteOnUnwind<'_> {
+        CompleteOnUnwind(&self.completed)
     }
 
     #[inline(always)]
@@ -124,7 +139,9 @@ where
                 // item_idx==yielded_count => it is our job to provide the item
                 Ordering::Equal => {
                     // SAFETY: no other thread has the valid condition to iterate, they are waiting
+                    let guard = self.complete_on_unwind();
                     let next = unsafe { self.mut_iter() }.next();
+                    std::mem::forget(guard);
                     match next.is_some() {
                         true => {
                             _ = self.yielded_counter.fetch_and_increment();
@@ -151,11 +168,13 @@ where
             // SAFETY: no other thread has the valid condition to iterate, they are waiting
             let iter = unsafe { self.mut_iter() };
             let end_idx = begin_idx + n;
+            let guard = self.complete_on_unwind();
             let buffer = (begin_idx..end_idx)
                 .map(|_| iter.next())
                 .take_while(|x| x.is_some())
                 .map(|x| x.expect("is_some is checked"))
                 .collect::<Vec<_>>();
+            std::mem::forget(guard);
 
             match buffer.len() {
                 0 => {
